@@ -583,7 +583,32 @@ class SimFS(AbstractFileSystem):
     def rm(self, path, recursive=False, maxdepth=None):
         paths = [path] if isinstance(path, str) else list(path)
         for p in paths:
-            self.rm_file(p)
+            p = self._strip_protocol(p)
+            if p in self.dirs and p not in self.files:
+                # a directory (LocalFileSystem semantics): only recursively,
+                # file by file - each removal an event of its own, seen by
+                # the monitors and the fault plan - then the directories
+                if not recursive:
+                    raise IsADirectoryError(errno.EISDIR, 'Is a directory', p)
+                pre = p + '/'
+                for f in sorted(x for x in self.files if x.startswith(pre)):
+                    self.rm_file(f)
+                self.rmdir(p, _tree=True)
+            else:
+                self.rm_file(p)
+
+    def rmdir(self, path, _tree=False):
+        path = self._strip_protocol(path)
+        ev = self._event('rmdir', path)
+        self._fault(ev)
+        if path not in self.dirs:
+            raise FileNotFoundError(errno.ENOENT, 'No such directory', path)
+        pre = path + '/'
+        if any(x.startswith(pre) for x in self.files) or \
+                (not _tree and any(d.startswith(pre) for d in self.dirs)):
+            raise OSError(errno.ENOTEMPTY, 'Directory not empty', path)
+        self.dirs = {d for d in self.dirs
+                     if d != path and not d.startswith(pre)}
 
     def rm_file(self, path):
         path = self._strip_protocol(path)
